@@ -134,6 +134,11 @@ class ArffAttrReader(Filter[Iterable[str], Iterable[Tuple[str,Callable]]]):
 class ArffDataReader(Filter[Iterable[str], Iterable[Union[Dense,Sparse]]]):
 
     _trans = str.maketrans('','',' \t\n\r\v\f')
+    _r_quoted = re.compile(r"""'(?:[^'\\]|\\.)*'|"(?:[^"\\]|\\.)*\"""")
+
+    def _sans_quoted(self, line:str) -> str:
+        #a ? inside of a quoted value is a part of that value, it is not a missing value marker
+        return self._r_quoted.sub("''",line) if "'" in line or '"' in line else line
 
     def __init__(self, is_dense:bool) -> None:
         self._is_dense = is_dense
@@ -152,7 +157,7 @@ class ArffDataReader(Filter[Iterable[str], Iterable[Union[Dense,Sparse]]]):
                 missing = True
             else:
                 #the values may be delimited by tabs and a line with a single value has no delimiter at all
-                compact = line.replace('\t',',').translate(self._trans)
+                compact = self._sans_quoted(line).replace('\t',',').translate(self._trans)
                 missing = compact == '?' or compact[:2] == '?,' or ',?,' in compact or compact[-2:] == ',?'
 
             yield line,missing
@@ -161,7 +166,7 @@ class ArffDataReader(Filter[Iterable[str], Iterable[Union[Dense,Sparse]]]):
 
         for line in lines:
             if line[0] == "%": continue
-            missing = " ?," in line or line[-3:] == " ?}"
+            missing = "?" in line and (" ?," in self._sans_quoted(line) or line[-3:] == " ?}")
             yield line,missing
 
 class ArffLineReader(Filter[str, Sequence[str]]):
